@@ -72,6 +72,9 @@ def pools():
         "trafo2": ([g.Transformation(t) for t in T2], lambda xs: g.TransformationCollection(np.array([x.array for x in xs]))),
         "seg2": ([g.Segment(g.Point(*a), g.Point(*b)) for a, b in SEG], lambda xs: g.SegmentCollection(np.array([x.array for x in xs]))),
         "poly2": ([g.Polygon(*[g.Point(*v) for v in vs]) for vs in POLY], lambda xs: g.PolygonCollection(np.array([x.array for x in xs]))),
+        # three-vertex polygons: the items of such a collection are Triangle objects (their own membership code), the single
+        # side of the comparison is built with the Triangle class
+        "tri2": ([g.Triangle(*[g.Point(*v) for v in vs[:3]]) for vs in POLY], lambda xs: g.PolygonCollection(np.array([x.array for x in xs]))),
     }
 
 
@@ -167,6 +170,8 @@ def optable():
     op("dist_sp2", ("seg2", "point2"), lambda a, b: g.dist(a, b))
     op("poly_contains2", ("poly2", "point2"), lambda a, b: a.contains(b))
     op("poly_area2", ("poly2",), lambda a: a.area)
+    op("tri_contains2", ("tri2", "point2"), lambda a, b: a.contains(b))
+    op("tri_area2", ("tri2",), lambda a: a.area)
     # (a TransformationCollection is aligned with the LAST collection axis of its operand, for polytopes that is the vertex
     #  axis, so "elementwise" application to polytope collections is not defined; single transformations are covered by C06)
     return T
@@ -331,7 +336,7 @@ def replay_indexing(_):
             out.append(dict(site=site, stratum="indexing", case={}, expected=exp, observed=obs))
 
     elem = {"quadric3": g.Quadric, "mpoint2": g.Point, "mline2": g.Line, "mpoint3": g.Point, "line3x": g.Line, "cpoint2": g.Point, "cpoint3": g.Point, "cline2": g.Line, "cplane3": g.Plane, "cline3": g.Line, "point2": g.Point, "line2": g.Line, "point3": g.Point, "plane3": g.Plane, "line3": g.Line, "quadric2": g.Quadric,
-            "trafo2": g.Transformation, "seg2": g.Segment, "poly2": g.Polygon}
+            "trafo2": g.Transformation, "seg2": g.Segment, "poly2": g.Polygon, "tri2": g.Triangle}
     for kind, (pool, mk) in PL.items():
         xs = pool[:6]
         c = mk(xs)
@@ -357,7 +362,7 @@ def replay_indexing(_):
                     continue
                 ref = singles if how != "[-1]" else singles[-1:]
                 for i, (x, s) in enumerate(zip(got, ref)):
-                    ok_cls = isinstance(x, elem[kind]) and (x.free_indices == 0 or kind in ("seg2", "poly2"))
+                    ok_cls = isinstance(x, elem[kind]) and (x.free_indices == 0 or kind in ("seg2", "poly2", "tri2"))
                     chk(f"{name}{how}/class", elem[kind].__name__, ok_cls, {"class": type(x).__name__, "free_indices": getattr(x, "free_indices", None)})
                     if not ok_cls:
                         break
@@ -375,7 +380,7 @@ def replay_indexing(_):
                             x.contains(g.Point(1, 2) if not x.is_dual else g.Line(1, 2, 3))
                         if kind == "seg2":
                             x.contains(g.Point(1, 1)); x.midpoint
-                        if kind == "poly2":
+                        if kind in ("poly2", "tri2"):
                             x.contains(g.Point(1, 1)); x.area
                     except Exception as e:  # noqa: BLE001
                         chk(f"{name}{how}/usable", "works like the single object", False, f"raised {type(e).__name__}: {e}")
@@ -399,8 +404,45 @@ def replay_indexing(_):
     return out
 
 
+def replay_membership(_):
+    """Polygon / triangle collections against points that are known to lie inside, on an edge, at a vertex and outside (the
+    pools of the operation table rarely put a point INTO the polygon at the same position), the points given by positive and
+    negative representatives: the collection answer at each position is the answer of the single objects."""
+    g = import_geometer()
+    PL = pools()
+    out = []
+    for kind, cls in (("poly2", g.Polygon), ("tri2", g.Triangle)):
+        singles = PL[kind][0]
+        coll = PL[kind][1](singles)
+        for pname, pick in (("centroid", lambda V: V.mean(axis=0)), ("edge-midpoint", lambda V: (V[0] + V[1]) / 2), ("vertex", lambda V: V[1]),
+                            ("outside", lambda V: 2.5 * V[1] - 1.5 * V.mean(axis=0)), ("edge-extension", lambda V: 2 * V[1] - V[0])):
+            for fname, facs in (("positive", [1, 2.5, 0.5]), ("negative", [-1, -3, -0.5]), ("mixed", [1, -2, 3])):
+                pts = []
+                for k, x in enumerate(singles):
+                    V = np.asarray(x.normalized_array, dtype=float)[:, :-1]
+                    q = pick(V)
+                    pts.append(np.array([q[0], q[1], 1.0]) * facs[k % 3])
+                site = f"{'Polygon' if kind == 'poly2' else 'Triangle'}Collection.contains/{pname}/{fname}-representatives"
+                try:
+                    pc = g.PointCollection(np.array(pts))
+                    got = np.asarray(coll.contains(pc))
+                    want = np.array([bool(x.contains(g.Point(q))) for x, q in zip(singles, pts)])
+                    item = np.array([bool(coll[k].contains(pc[k])) for k in range(len(singles))])
+                    one = np.array([bool(np.asarray(coll.contains(g.Point(pts[k])))[k]) for k in range(len(singles))])
+                    for nm, val in (("collection", got), ("items", item), ("collection-with-single-point", one)):
+                        if val.shape != want.shape or not np.array_equal(val, want):
+                            out.append(dict(site=site + "/" + nm, stratum="one-collection-axis", case={"points": np.array(pts).tolist()},
+                                            expected=want.tolist(), observed=val.tolist()))
+                except Exception as e:  # noqa: BLE001
+                    out.append(dict(site=site, stratum="one-collection-axis", case={"points": np.array(pts).tolist()}, expected="booleans",
+                                    observed=f"raised {type(e).__name__}: {e}"))
+    return out
+
+
 def _work(job):
     try:
+        if job[0] == "member":
+            return replay_membership(None)
         return replay(job[1]) if job[0] == "recs" else replay_indexing(None)
     except Exception:  # noqa: BLE001
         import traceback
@@ -437,7 +479,7 @@ def run(ctx: Ctx):
         if not strata.get(need):
             raise MachineryError(f"stratum {need} never visited (vacuous)")
     ctx.log(f"{len(recs)} (operation, shapes, contents) cases over {len(names)} operations")
-    jobs = [("recs", recs[i:i + 60]) for i in range(0, len(recs), 60)] + [("idx", None)]
+    jobs = [("recs", recs[i:i + 60]) for i in range(0, len(recs), 60)] + [("idx", None), ("member", None)]
     with Pool(16) as pool:
         results = pool.map(_work, jobs, chunksize=1)
     for res in results:
